@@ -513,9 +513,9 @@ pub fn gen_scale(rng: &mut Rng, thorough: bool) -> String {
     let plan = SCALE_PLAN.get_or_init(|| {
         // model cost: ~0.5 us per byte written, sink appends are quadratic in the number of sink
         // calls, each tiny write copies the 16 KiB buffer
-        let o = ScaleDim::new(10, 20, 22, 16, 1);
+        let o = ScaleDim::new(10, 20, 21, 16, 1);
         let dims = [
-            o,
+            ScaleDim::new(10, 20, 22, 16, 1),
             ScaleDim::new(10, 22, 23, 16, 1).model_max((1 << 20) + 64, (1 << 20) + 64).rest_big(),
             ScaleDim::new(10, 21, 22, 12, 1).model_max((1 << 12) + 64, (1 << 13) + 64).rest_big(),
             o,
